@@ -2,7 +2,7 @@
    Print Assumptions.  Costs are integers (dyadic floats scaled by 2^30; 2^-26 is 16). *)
 From Coq Require Import ZArith List Bool.
 From Centro Require Import Base.Sx Model.Lapjv Spec.Lapjv Proofs.LapjvCert Proofs.LapjvRefute Proofs.LapjvTrack
-  Proofs.LapjvPhases Proofs.LapjvAbstract Proofs.LapjvGrid Proofs.LapjvArr Proofs.LapjvRows Proofs.LapjvTrackCost Proofs.LapjvRt Proofs.LapjvHall Proofs.LapjvBsearch Proofs.LapjvTrackLink Proofs.LapjvArrExt Proofs.LapjvExtModel Proofs.LapjvAugMarks Proofs.LapjvAugFlip Proofs.LapjvAugPred Proofs.LapjvAugRows Proofs.LapjvPerm Proofs.LapjvFixedPerm Proofs.LapjvAugFuel Proofs.LapjvAugPrice Proofs.LapjvAugStamps Proofs.LapjvAugOpt Proofs.LapjvAugDist Proofs.LapjvAugDistHyp Proofs.LapjvAugPriceExt Proofs.LapjvReserved Proofs.LapjvRefPerm Proofs.LapjvAugDistR Proofs.LapjvAugDistHypR Proofs.LapjvAugTotalR Proofs.LapjvRefTotal.
+  Proofs.LapjvPhases Proofs.LapjvAbstract Proofs.LapjvGrid Proofs.LapjvArr Proofs.LapjvRows Proofs.LapjvTrackCost Proofs.LapjvRt Proofs.LapjvHall Proofs.LapjvBsearch Proofs.LapjvTrackLink Proofs.LapjvArrExt Proofs.LapjvExtModel Proofs.LapjvAugMarks Proofs.LapjvAugFlip Proofs.LapjvAugPred Proofs.LapjvAugRows Proofs.LapjvPerm Proofs.LapjvFixedPerm Proofs.LapjvAugFuel Proofs.LapjvAugPrice Proofs.LapjvAugStamps Proofs.LapjvAugOpt Proofs.LapjvAugDist Proofs.LapjvAugDistHyp Proofs.LapjvAugPriceExt Proofs.LapjvReserved Proofs.LapjvRefPerm Proofs.LapjvAugDistR Proofs.LapjvAugDistHypR Proofs.LapjvAugTotalR Proofs.LapjvRefTotal Proofs.LapjvReservedOpt.
 Import ListNotations.
 Open Scope Z_scope.
 
@@ -482,14 +482,14 @@ Theorem C01_aug_price_slack_ext_partial : forall (n : nat) (rows : list (list (n
 Proof. exact aug_price_slack_ext. Qed.
 Print Assumptions C01_aug_price_slack_ext_partial.
 
-Theorem C01_optimal_with_reserved_partial : forall n tri x (dead : nat -> bool) (u v : nat -> Z),
+Theorem C01_optimal_with_reserved_spec : forall n tri x (dead : nat -> bool) (u v : nat -> Z),
   PM n tri x ->
   (forall sigma, PM n tri sigma -> forall i, (i < n)%nat -> dead (col x i) = true -> col sigma i = col x i) ->
   (forall i j z, (i < n)%nat -> cost tri i j = Some z -> dead (col x i) = false -> dead j = false -> 0 <= z - u i - v j) ->
   (forall i, (i < n)%nat -> dead (col x i) = false -> costz tri i (col x i) - u i - v (col x i) = 0) ->
   Optimal n tri x.
 Proof. exact optimal_with_reserved. Qed.
-Print Assumptions C01_optimal_with_reserved_partial.
+Print Assumptions C01_optimal_with_reserved_spec.
 
 (* towards "always returns": the cost lookup of a popped (assigned) column never fails ... *)
 Theorem C01_aug_lookup_defined : forall n tri x y v j,
@@ -675,6 +675,65 @@ Theorem C01_lapjv_ref_fixed_correct_k0 : forall n tri,
   exists x y u v, lapjv_ref Fixed eps epsr 0 n tri = Some (x, y, u, v) /\ Optimal n tri x /\ Inverse n x y.
 Proof. exact ref_correct_k0. Qed.
 Print Assumptions C01_lapjv_ref_fixed_correct_k0.
+
+(* Round 13: one-candidate rows with k >= 1 passes.  The ORDER invariant on the reserved (-inf priced) block: the reserved
+   columns can be listed newest first so that the row of each lists only that column and older ones (Proofs.LapjvArrExt.Ord;
+   a column becomes reserved exactly when its new row has no other finite-priced candidate, and reserved columns are never
+   reassigned).  It holds after phases 1-2 (no reserved column) and is preserved by augmenting row reduction. *)
+Theorem C01_arr_passes_inv_ord : forall (n : nat) (rows : list (list (nat * ext))),
+  (forall i j c, In (j, c) (row rows i) -> (j < n)%nat /\ exists z, c = Fin z) ->
+  (forall i, NoDup (map fst (row rows i))) ->
+  (forall L C : list nat, NoDup L -> (forall i, In i L -> (i < n)%nat) ->
+     (forall i j c, In i L -> In (j, c) (row rows i) -> In j C) -> (length L <= length C)%nat) ->
+  forall epsr fuel, 0 <= epsr -> forall k x y v ii x' y' v' ii',
+  InvE n rows x y v -> Ord n rows y v -> Pending n y ii ->
+  arr_passes k fuel (Fin 0) (Fin epsr) n rows (x, y, v, ii) = Some (x', y', v', ii') ->
+  InvE n rows x' y' v' /\ Ord n rows y' v' /\ Pending n y' ii'.
+Proof. exact arr_passes_inv_ord. Qed.
+Print Assumptions C01_arr_passes_inv_ord.
+
+(* hence the reserved block is FORCED: in every perfect matching the row of a reserved column is matched to it *)
+Theorem C01_reserved_forced : forall n tri x y v,
+  (forall t, In t tri -> (t_i t < n)%nat /\ (t_j t < n)%nat) ->
+  InvE n (rows_of n tri) x y v -> Ord n (rows_of n tri) y v ->
+  forall sigma, PM n tri sigma -> forall j, (j < n)%nat -> gete v j = NInf -> col sigma (getn y j n) = j.
+Proof. exact reserved_forced. Qed.
+Print Assumptions C01_reserved_forced.
+
+(* optimality WITH reserved columns, closed at the level of the state invariant (was _partial with "forced" as a premise): a
+   complete assignment that satisfies InvE (prices in Fin | -inf) and Ord is a minimum-cost perfect matching *)
+Theorem C01_optimal_with_reserved : forall n tri x y v,
+  (forall t, In t tri -> (t_i t < n)%nat /\ (t_j t < n)%nat) ->
+  NoDup (map fst tri) ->
+  InvE n (rows_of n tri) x y v -> Ord n (rows_of n tri) y v -> Inverse n x y ->
+  Optimal n tri x.
+Proof. exact inve_ord_optimal. Qed.
+Print Assumptions C01_optimal_with_reserved.
+
+(* END TO END, FULL, when phases 1-3 leave no pending row (executable condition arr_nofree_b): ANY rows - one-candidate
+   rows included - and ANY number of passes: the reference solver returns an optimal perfect matching with inverse
+   permutations.  What is still missing for one-candidate rows with k >= 1 is only the case where augment actually runs:
+   the loop invariant K of Proofs.LapjvAugDistR over InvE (a reserved column has d = +inf and is a non-edge for the Dijkstra
+   loop) and the preservation of InvE / Ord by aug_row; the Hall step then uses L = r :: rows of ready ++ rows of reserved
+   columns (closed under candidates by InvE). *)
+Theorem C01_lapjv_ref_fixed_correct_nofree : forall n tri,
+  (forall t, In t tri -> (t_i t < n)%nat /\ (t_j t < n)%nat) ->
+  NoDup (map fst tri) ->
+  (forall j, (j < n)%nat -> exists t, In t tri /\ t_j t = j) ->
+  has_PM n tri ->
+  forall epsr k, 0 <= epsr -> arr_nofree_b epsr k n tri = true ->
+  exists x y u v, lapjv_ref Fixed 0 epsr k n tri = Some (x, y, u, v) /\ Optimal n tri x /\ Inverse n x y.
+Proof. exact ref_correct_nofree. Qed.
+Print Assumptions C01_lapjv_ref_fixed_correct_nofree.
+
+(* arr_passes_total is FALSE for the model's fuel, also for epsr = 2^-26 on an integer cost grid: a kernel-evaluated n = 4
+   input with a perfect matching on which the price war of augmenting row reduction takes ~10^4 retries against a fuel of
+   5160.  A limitation of the MODEL (its fuel does not scale with the cost range), not of the code: the real loop is
+   unbounded, returns on this input and its answer is optimal. *)
+Theorem C01_arr_fuel_not_total :
+  exists n tri k, wf n tri /\ has_PM n tri /\ (forall t, In t tri -> (1073741824 | t_c t)) /\ arr_returns_b 16 k n tri = false.
+Proof. exact arr_fuel_not_total. Qed.
+Print Assumptions C01_arr_fuel_not_total.
 
 (* completeness of phases 1-3 (every row is pending or assigned) ... *)
 Theorem C01_phase1_comp : forall n tri,
